@@ -14,10 +14,13 @@ package core
 //	F seq db proto n C argc x* ( N now R kind x S state E state )^n
 //	K seq role C argc x* R kind x O done mut didx chg flag
 //	Q seq n OPS m ( node db kind x C argc x* )^m NODES ( now S state E state )^n T timedout
+//	N seq C 1 x(@transfer) R kind x S state-of-the-source E state-of-the-restored-node      (snapshot transfer)
 import (
 	"bufio"
+	"bytes"
 	"encoding/json"
 	"fmt"
+	"io"
 	"os"
 	"strings"
 	"time"
@@ -351,6 +354,101 @@ func (r *raftRun) sweepFsm(seed int64, tier string) error {
 		if err := r.runFsm(s, false, true, &probes); err != nil {
 			return err
 		}
+	}
+	return nil
+}
+
+// ---- snapshot transfer ---------------------------------------------------------------------------
+
+// memSink is a raft.SnapshotSink that keeps the snapshot in memory.
+type memSink struct {
+	bytes.Buffer
+	id string
+}
+
+func (m *memSink) ID() string    { return m.id }
+func (m *memSink) Cancel() error { return nil }
+func (m *memSink) Close() error  { return nil }
+
+// sweepTransfer: a node that joins late or restarts after log compaction does not replay the log, it installs a
+// snapshot of another node's state machine (FSM.Snapshot → Persist → FSM.Restore). The source holds plain ASCII
+// strings without deadlines in several databases (values that survive JSON unchanged): the restored node must hold
+// the same dataset. One N line per experiment.
+func (r *raftRun) sweepTransfer() error {
+	datasets := [][]RaftOp{
+		ops(0, 0, []string{"set", "a0", "x"}, []string{"set", "b0", "y"}),
+		append(append(ops(0, 0, []string{"set", "a0", "x"}, []string{"mset", "b0", "y", "c0", "z"}), ops(0, 1, []string{"set", "a1", "p"})...),
+			ops(0, 3, []string{"set", "a3", "q"}, []string{"set", "b3", "r"})...),
+		append(ops(0, 2, []string{"set", "only2", "v"}), ops(0, 1, []string{"set", "only1", "w"})...),
+	}
+	for i, ds := range datasets {
+		if err := r.runTransfer(fmt.Sprintf("tr%d", i), ds); err != nil {
+			return err
+		}
+	}
+	return nil
+}
+
+func (r *raftRun) runTransfer(seq string, ds []RaftOp) error {
+	{
+		nodes, err := r.poolNodes(2, true)
+		if err != nil {
+			return err
+		}
+		src, dst := nodes[0], nodes[1]
+		for _, o := range ds {
+			if res := src.Apply(o.Db, 2, UnhexCmd(o.Cmd)); res.Kind != "ok" {
+				fmt.Fprintf(r.w, "U %s source-not-prepared\n", seq)
+				return nil
+			}
+		}
+		pre, err := src.Dump()
+		if err != nil {
+			fmt.Fprintf(r.w, "U %s %s\n", seq, strings.ReplaceAll(err.Error(), " ", "_"))
+			return nil
+		}
+		ch := make(chan Result, 1)
+		go func() {
+			defer func() {
+				if x := recover(); x != nil {
+					ch <- Result{"panic", fmt.Sprint(x)}
+				}
+			}()
+			snap, err := src.FSM.Snapshot()
+			if err != nil {
+				ch <- Result{"err", "snapshot: " + err.Error()}
+				return
+			}
+			sink := &memSink{id: fmt.Sprintf("2-10-%d", src.Clock.Ms())}
+			if err := snap.Persist(sink); err != nil {
+				ch <- Result{"err", "persist: " + err.Error()}
+				return
+			}
+			snap.Release()
+			if err := dst.FSM.Restore(io.NopCloser(bytes.NewReader(sink.Bytes()))); err != nil {
+				ch <- Result{"err", "restore: " + err.Error()}
+				return
+			}
+			ch <- Result{"ok", ""}
+		}()
+		var res Result
+		select {
+		case res = <-ch:
+		case <-time.After(5 * time.Second):
+			res = Result{"hang", ""}
+			src.Dead, dst.Dead = true, true
+		}
+		post, err := dst.Dump()
+		if err != nil {
+			fmt.Fprintf(r.w, "U %s %s\n", seq, strings.ReplaceAll(err.Error(), " ", "_"))
+			return nil
+		}
+		payload := res.Bytes
+		if res.Kind == "hang" {
+			payload = ""
+		}
+		fmt.Fprintf(r.w, "N %s C 1 %s R %s %s S %s E %s\n", seq, X("@transfer"), res.Kind, X(payload), pre, post)
+		r.recordSeq(RaftSeq{ID: seq, RKind: "transfer", Ops: ds})
 	}
 	return nil
 }
@@ -991,6 +1089,8 @@ func RunRaft(w *bufio.Writer, seed int64, tier string, replay string) (err error
 			return r.runFsm(rp.Seq, true, false, &one)
 		case "disp":
 			return r.runDisp(rp.Seq.Role, []RaftSeq{rp.Seq}, true)
+		case "transfer":
+			return r.runTransfer(rp.Seq.ID, rp.Seq.Ops)
 		case "cluster":
 			return r.runCluster(rp.Seq, true)
 		}
@@ -1001,6 +1101,9 @@ func RunRaft(w *bufio.Writer, seed int64, tier string, replay string) (err error
 		return err
 	}
 	t1 := time.Now()
+	if err = r.sweepTransfer(); err != nil {
+		return err
+	}
 	if err = r.sweepCluster(seed, tier); err != nil {
 		return err
 	}
